@@ -180,6 +180,129 @@ example : ((resolve [] caseProg).bind (fun p => (eval 14 {} p).toOption)).map (f
   decide +kernel
 example : ((eval 14 {} caseProg).toOption).map (fun r => match r.1 with | .int i => i | _ => -1) = some 10 := by decide +kernel
 
+/-! ## every define that can execute in a frame is announced in its static scope
+
+`predefine` (the repaired helper of `resolve`) walks the statements of a body and the operands of every form that is
+evaluated in the same frame. `reaches_announced` states this for **all** programs: whatever the nesting, a
+`(define n …)` that evaluation of `e` can execute in the current frame (`Reaches n e`) makes `n` known to the static
+scope, and `reachable_define_stays_dynamic` draws the consequence for resolution: such a name is never annotated —
+neither with this scope nor with one further out — before a define of it has been passed. -/
+
+theorem scopeHas_append (s t : Scope) (n : String) : scopeHas (s ++ t) n = (scopeHas s n || scopeHas t n) := by
+  simp [scopeHas, List.any_append]
+
+theorem setDefault_mono (s : Scope) (m n : String) (h : scopeHas s n = true) : scopeHas (setDefault s m) n = true := by
+  unfold setDefault
+  split
+  · exact h
+  · simp [scopeHas_append, h]
+
+theorem setDefault_self (s : Scope) (n : String) : scopeHas (setDefault s n) n = true := by
+  unfold setDefault
+  split
+  · assumption
+  · simp [scopeHas_append, scopeHas]
+
+/-- announcing never forgets a name -/
+theorem predefine_mono :
+    (∀ (s : Scope) (l : List Sx) (n : String), scopeHas s n = true → scopeHas (predefine s l) n = true) ∧
+    (∀ (s : Scope) (e : Sx) (n : String), scopeHas s n = true → scopeHas (predefine1 s e) n = true) := by
+  apply predefine.mutual_induct
+    (motive_1 := fun s l => ∀ n, scopeHas s n = true → scopeHas (predefine s l) n = true)
+    (motive_2 := fun s e => ∀ n, scopeHas s n = true → scopeHas (predefine1 s e) n = true)
+  all_goals intros
+  all_goals simp_all [predefine, predefine1, setDefault_mono]
+/-- operators whose operands are not evaluated in the current frame (own frame, or not evaluated at all) -/
+def skipsFrame : Op → Bool
+  | .FN | .LET | .QUOTE | .QUASIQUOTE | .DEFMACRO => true
+  | _ => false
+
+/-- `Reaches n e`: evaluating `e` in a frame can execute a `(define n …)` in that very frame — the define is `e` itself,
+    or sits (at any depth) among the operands of forms evaluated in the frame; `fn`, `let`, quoted data and `defmacro`
+    are not entered -/
+inductive Reaches (n : String) : Sx → Prop
+  | here (st : Option Nat) (rest : List Sx) : Reaches n (.list true (.op .DEFINE :: .sym n st :: rest))
+  | inDefine (x : Sx) (rest : List Sx) (e : Sx) : e ∈ rest → Reaches n e → Reaches n (.list true (.op .DEFINE :: x :: rest))
+  | inOp (o : Op) (x : Sx) (rest : List Sx) (e : Sx) : o ≠ .DEFINE → skipsFrame o = false → e ∈ x :: rest → Reaches n e →
+      Reaches n (.list true (.op o :: x :: rest))
+  | inCall (h x : Sx) (rest : List Sx) (e : Sx) : (∀ o, h ≠ .op o) → e ∈ h :: x :: rest → Reaches n e →
+      Reaches n (.list true (h :: x :: rest))
+
+theorem predefine_mem (n : String) (l : List Sx) (e : Sx) (he : e ∈ l)
+    (h : ∀ s, scopeHas (predefine1 s e) n = true) : ∀ s, scopeHas (predefine s l) n = true := by
+  induction l with
+  | nil => cases he
+  | cons a r ih =>
+    intro s
+    simp only [predefine]
+    rcases List.mem_cons.1 he with rfl | hr
+    · exact predefine_mono.1 _ r n (h s)
+    · exact ih hr _
+
+/-- **every define that can execute in the frame is announced in its static scope** -/
+theorem reaches_announced (n : String) (e : Sx) (hr : Reaches n e) : ∀ s, scopeHas (predefine1 s e) n = true := by
+  induction hr with
+  | here st rest =>
+    intro s
+    simp only [predefine1]
+    exact predefine_mono.1 _ rest n (setDefault_self s n)
+  | inDefine x rest e he _ ih =>
+    intro s
+    cases x with
+    | sym m st =>
+      simp only [predefine1]
+      exact predefine_mem n rest e he ih _
+    | _ =>
+      simp only [predefine1]
+      exact predefine_mem n (_ :: rest) e (List.mem_cons_of_mem _ he) ih _
+  | inOp o x rest e hd hs he _ ih =>
+    intro s
+    cases o <;> simp_all [predefine1, skipsFrame] <;> exact predefine_mem n (x :: rest) e (by simpa using he) ih _
+  | inCall h x rest e hh he _ ih =>
+    intro s
+    cases h with
+    | op o => exact absurd rfl (hh o)
+    | _ => simp only [predefine1]; exact predefine_mem n (_ :: x :: rest) e he ih _
+theorem lookup_append_false (s : Scope) (m n : String) :
+    ((s ++ [(m, false)]).lookup n == some true) = (s.lookup n == some true) := by
+  induction s with
+  | nil => by_cases h : n == m <;> simp [List.lookup, h]
+  | cons p r ih =>
+    obtain ⟨k, v⟩ := p
+    by_cases h : n == k <;> simp [List.lookup, h, ih]
+
+theorem setDefault_defined (s : Scope) (m n : String) : scopeDefined (setDefault s m) n = scopeDefined s n := by
+  unfold setDefault scopeDefined
+  split
+  · rfl
+  · exact lookup_append_false s m n
+
+/-- announcing adds names as "not yet defined" only: what is defined stays exactly what it was -/
+theorem predefine_defined :
+    (∀ (s : Scope) (l : List Sx) (n : String), scopeDefined (predefine s l) n = scopeDefined s n) ∧
+    (∀ (s : Scope) (e : Sx) (n : String), scopeDefined (predefine1 s e) n = scopeDefined s n) := by
+  apply predefine.mutual_induct
+    (motive_1 := fun s l => ∀ n, scopeDefined (predefine s l) n = scopeDefined s n)
+    (motive_2 := fun s e => ∀ n, scopeDefined (predefine1 s e) n = scopeDefined s n)
+  all_goals intros
+  all_goals simp_all [predefine, predefine1, setDefault_defined]
+
+/-- **a reference to a name that a define of the frame may still bind is never resolved statically** — neither to this
+    scope nor past it — as long as the scope has not passed a define of that name -/
+theorem reachable_define_stays_dynamic (s : Scope) (rest : Scopes) (n : String) (e : Sx) (k : Nat)
+    (hr : Reaches n e) (hnd : scopeDefined s n = false) : lookupSteps (predefine1 s e :: rest) n k = Option.none := by
+  have h1 := reaches_announced n e hr s
+  have h2 : scopeDefined (predefine1 s e) n = false := by rw [predefine_defined.2]; exact hnd
+  simp [lookupSteps, h1, h2]
+
+/-- the witness of the repaired defect: the `b` that `(set [b (do (define b 1) 1)])` may bind is reachable -/
+example : Reaches "b" (.list true [.op .SET, .list true [.sym "b" Option.none,
+    .list true [.op .DO, .list true [.op .DEFINE, .sym "b" Option.none, .int 1], .int 1]]]) := by
+  refine .inOp .SET _ [] _ (by decide) rfl (List.mem_cons_self) ?_
+  refine .inCall _ _ [] _ (by intro o; simp) (List.mem_cons_of_mem _ List.mem_cons_self) ?_
+  refine .inOp .DO _ _ _ (by decide) rfl (List.mem_cons_self) ?_
+  exact .here _ _
+
 /-- `(do (define b 5) (let ([a (do (define b 1) 1)]) b))`: the initial value defines `b` inside the let's frame; the
     reference in the body is announced (not yet defined) in the let's static scope, stays a dynamic lookup, and both runs
     read 1 -/
